@@ -50,7 +50,7 @@ func unesc(s string) (string, bool) {
 	for i := 0; i < len(s); i++ {
 		switch {
 		case s[i] == '%':
-			if i+2 >= len(s)+0 && i+2 > len(s)-1 {
+			if i+2 >= len(s) {
 				return "", false
 			}
 			a, b := hexv(s[i+1]), hexv(s[i+2])
